@@ -10,3 +10,17 @@ pub assume_specification<T, F: FnOnce() -> Option<T>>[ Option::<T>::or_else ](o:
 pub assume_specification<T, F: FnOnce(T) -> bool>[ Option::<T>::is_some_and ](opt: Option<T>, f: F) -> (r: bool)
     requires opt.is_some() ==> f.requires((opt.unwrap(),)),
     ensures opt.is_none() ==> !r, opt.is_some() ==> f.ensures((opt.unwrap(),), r);
+
+// N4: `debug_assert!(c)` / `debug_assert_eq!(a, b)` become calls to this function: a debug assertion is a proof
+// obligation ("builds with or without debug assertions", C06)
+fn debug_assert_(cond: bool)
+    requires cond, // [C06.dbg]
+{
+}
+
+pub assume_specification [core::cmp::Ordering::is_eq] (o: Ordering) -> (r: bool)
+    ensures r == (o == Ordering::Equal);
+
+pub assume_specification<F: FnOnce() -> Ordering> [core::cmp::Ordering::then_with] (o: Ordering, f: F) -> (r: Ordering)
+    requires o == Ordering::Equal ==> f.requires(()),
+    ensures o != Ordering::Equal ==> r == o, o == Ordering::Equal ==> f.ensures((), r);
